@@ -24,8 +24,10 @@ def merge_x(out, st, corpus, bounds=None):
     """fold one corpus run into out.coverage (model_checking keys accumulate)"""
     c = out.coverage
     c.setdefault('engines', [])
-    if 'X: Kani/CBMC over the real expansions (solver decides all argument values)' not in c['engines']:
-        c['engines'].append('X: Kani/CBMC over the real expansions (solver decides all argument values)')
+    tag = ('X (compile only): rustc type-checks the real expansions of the corpus; a program that stops compiling is reported'
+           if st.get('compile_only') else 'X: Kani/CBMC over the real expansions (solver decides all argument values)')
+    if tag not in c['engines']:
+        c['engines'].append(tag)
     c['states'] = c.get('states', 0) + st['checks']
     c['transitions'] = c.get('transitions', 0) + st['harnesses']
     c['traces_validated_against_impl'] = c.get('traces_validated_against_impl', 0) + st['harnesses']
